@@ -234,6 +234,31 @@ func propC01(rec *stats.Rec, sc *scratch, auto bool) func(t *rapid.T) {
 				mutated = fmt.Sprintf("removeFile %s/%s", l.Pool[c.d].Name, c.n)
 			},
 		}
+		// a Spec file renamed to a name the scan ignores (x.json -> x.json.disabled), or moved out of the directory:
+		// the only event is a rename event carrying the old name
+		actions["renameAway"] = func(t *rapid.T) {
+			type cand struct {
+				d int
+				n string
+			}
+			var cands []cand
+			for _, d := range existing() {
+				for _, n := range l.Pool[d].SortedFileNames() {
+					if layout.IsSpecName(n) {
+						cands = append(cands, cand{d, n})
+					}
+				}
+			}
+			if len(cands) == 0 {
+				t.Skip("no Spec-named file")
+			}
+			c := rapid.SampledFrom(cands).Draw(t, "file")
+			to := rapid.SampledFrom([]string{"", c.n + ".disabled", c.n + ".bak", "." + c.n + "~"}).Draw(t, "to")
+			if err := l.RenameFile(c.d, c.n, to); err != nil {
+				t.Skip(err.Error())
+			}
+			mutated = fmt.Sprintf("renameAway %s/%s -> %q", l.Pool[c.d].Name, c.n, to)
+		}
 		if !auto {
 			actions["putIgnoredName"] = func(t *rapid.T) {
 				ex := existing()
